@@ -28,7 +28,8 @@ STALL_S = 300
 TOKENS = ["$", "@", ".", "..", "[", "]", "(", ")", "?", ",", ":", "*", "!", "&&", "||", "==", "!=", "<", "<=", ">", ">=", "'a'", '"a"',
           "1", "-1", "01", "-0", "1.5", "1e400", "1e-400", "-0e-999", "9" * 40, "a", "true", "false", "null", "length(", "count(", "value(",
           "match(", "search(", "f(", " ", "\n", "\t", "\r", "'", '"', "\\", "\\u", "\\ud83d", "é", "\U0001F600", "\x00", "\x7f", "_", "-", "=", "&", "|", "~", "#", "{", "}", "0", "e", "E", "+", "/",
-          "\u00b2", "\u2460", "\u0663", "\uff11", "1\u00b2", "-\u0661", "\u00bd", "\u0e51", "\U0001d7d9"]
+          "\u00b2", "\u2460", "\u0663", "\uff11", "1\u00b2", "-\u0661", "\u00bd", "\u0e51", "\U0001d7d9",
+          "%", "%s", "%d", "%(a)s", "{}", "{0}", "%%", "a%b"]
 GARBAGE = list("$@.[]()?,:*!&|=<>'\"\\ \n\t\r-+eE0123456789abcfnrtu_{}#~/") + ["é", "\U0001F600", " ", "\x00", "\x1f", "\u00b2", "\u2460", "\u0663", "\uff11", "￿", "퟿", "\U0010ffff", "ÿ"]
 
 ROOTS = [None, True, False, 0, 1, -1, 1.5, "", "abc", [], {}, [None], [0, "a", [], {}], {"a": 1}, {"a": {"b": [1, 2, {"c": None}]}, "b": "x"},
@@ -299,7 +300,8 @@ def run_shard(spec, rec):
     for q_ in "'\"":
         other = '"' if q_ == "'" else "'"
         bodies = ["\\" + other, "a\\" + other + "b", "\\x", "\\u", "\\u12", "\\u12g4", "\\u-001", "\\u+041", "\\u 041", "\\ud800", "\\udc00", "\\ud800\\u0041", "\\ud800\\ud800",
-                  "\\", "a\\", "\x01", "a\nb", "\\U0041", "\\N", "\\0", "\\u00", "\\ud83d\\u", "\\udfff\\ud800", "\\u0x41", "\\u１２３４"]
+                  "\\", "a\\", "\x01", "a\nb", "\\U0041", "\\N", "\\0", "\\u00", "\\ud83d\\u", "\\udfff\\ud800", "\\u0x41", "\\u１２３４",
+                  "\\udbff\\uffff", "\\udbf8\\ufc00", "\\ud800\\ufffd", "\\udbff\\ue000", "\\ud83d\\ufe0f", "\\udbff\\udfff\\uffff", "\\uffff", "\\ufc00", "\\ufffe\\udc00", "\\udbff\\u0000", "100%", "%s", "%d %(x)s", "{0}{}", "%"]
         for body in bodies:
             for tmpl in ("$[%s]", "$[?@ == %s]", "$[?match(@, %s)]", "$[0, %s]", "$..[%s, 1]", "$[?%s == %s]", "$[?length(%s) > 1]"):
                 text = tmpl.replace("%s", q_ + body + q_)
